@@ -471,10 +471,145 @@ def run_history(st: Stats, case):
         shutil.rmtree(root, ignore_errors=True)
 
 
+# ---- two libraries that use the same entity names; B with and without a project_url of its own ---------------------------
+LIB_SRC = """module {m}
+  !! module of library {L}
+  implicit none
+  type config_t
+    !! config of {L}
+    integer :: c
+  end type config_t
+contains
+  subroutine init(x)
+    !! init of {L}
+    type(config_t) :: x
+  end subroutine init
+end module {m}
+"""
+APP_SRC = """module app{k}
+  !! application module {k}: see [[{m}]] and [[{m}(extmodule)]]
+  use {m}
+  implicit none
+  type(config_t) :: cfg{k}
+  !! a variable of the library's type
+  type, extends(config_t) :: my{k}
+    !! extends the library's type
+    integer :: extra
+  end type my{k}
+contains
+  subroutine run{k}()
+    !! calls the library
+    call init(cfg{k})
+  end subroutine run{k}
+end module app{k}
+"""
+LIB_URL = {"L1": "http://l1.example/docs", "L2": "http://l2.example/api/v2"}
+
+
+def run_two_libs(st: Stats, case):
+    _, form, order, b_url = case
+    root = fordrun.new_root()
+    stratum = f"two-libraries/form:{form}"
+    feats = dict(a_opts="two-libraries", form=form, order=order, b_project_url=b_url or "", clash="", damage="", refs="ext", history="")
+    inp = dict(case=["two-libs", form, order, b_url])
+    st.evaluations += 1
+    st.nontrivial.add(core.digest(inp))
+    try:
+        outs = {}
+        for L, m in (("L1", "lib1"), ("L2", "lib2")):
+            r = fordrun.build({"src/lib.f90": LIB_SRC.format(m=m, L=L)}, dict(externalize=True, project=L), stage="write", root=root / L, keep=True)
+            if r.error is not None or r.stage_reached != "write":
+                st.violation("ford-failed-on-A", stratum, feats, inp, repr(r.error) + r.log[-200:], "the library is built")
+                return
+            outs[L] = r.out
+        import ford.external_project as ep
+        from urllib.error import URLError
+
+        def urlopen(url, *a, **k):
+            u = str(url)
+            for L, base in LIB_URL.items():
+                if u.startswith(base + "/"):
+                    p = outs[L] / u[len(base) + 1:]
+                    if p.exists():
+                        return io.BytesIO(p.read_bytes())
+            raise URLError(f"404 {u}")
+
+        ep.urlopen = urlopen
+        ext = {}
+        for L in (("L1", "L2") if order == "12" else ("L2", "L1")):
+            ext[L.lower()] = {"relative": f"../{L}/doc", "absolute": str(outs[L]), "http": LIB_URL[L]}[form]
+        b_files = {"src/app1.f90": APP_SRC.format(k=1, m="lib1"), "src/app2.f90": APP_SRC.format(k=2, m="lib2")}
+        b_opts = dict(external=ext, project="app", display=["public", "private", "protected"], **(dict(project_url=b_url) if b_url else {}))
+        b = fordrun.build(b_files, b_opts, stage="write", root=root / "B", keep=True)
+        st.transitions += 1
+        if b.error is not None or b.stage_reached != "write":
+            st.violation("run-of-B-aborted", stratum, dict(feats, error=type(b.error).__name__ if b.error else "incomplete"), inp, (repr(b.error) + " " + b.log[-200:])[:400], "B completes")
+            st.stratum(stratum, 1)
+            return
+        site = Site(b.out)
+        bad = 0
+        seen = set()
+        for k, L in (("1", "L1"), ("2", "L2")):
+            other = "L2" if L == "L1" else "L1"
+            linked = set()
+            for page in (f"module/app{k}.html", f"type/my{k}.html", f"proc/run{k}.html"):
+                pg = site.pages.get(page)
+                if pg is None:
+                    continue
+                for (tag, attr, url) in pg.links:
+                    if attr not in ("href", "xlink:href"):
+                        continue
+                    tgt = None  # (library, path inside its documentation)
+                    if form == "http":
+                        if "l1.example" in url or "l2.example" in url:
+                            tgt = ("?", url)
+                            for LL, base in LIB_URL.items():
+                                if url.startswith(base + "/"):
+                                    tgt = (LL, url[len(base) + 1:])
+                    else:
+                        u = urllib.parse.urlsplit(url)
+                        if not u.scheme and u.path:
+                            pth = os.path.normpath(os.path.join(os.path.dirname(site.root / page), urllib.parse.unquote(u.path)))
+                            for LL in ("L1", "L2"):
+                                if pth.startswith(str(outs[LL].resolve()) + os.sep) or pth.startswith(str(outs[LL]) + os.sep):
+                                    tgt = (LL, os.path.relpath(pth, str(outs[LL].resolve()) if pth.startswith(str(outs[LL].resolve())) else str(outs[LL])))
+                        elif u.scheme and ("/L1/doc" in url or "/L2/doc" in url):
+                            tgt = ("?", url)  # a path into a library wrapped into something that is not a path any more
+                    if tgt is None:
+                        continue
+                    LL, rel = tgt
+                    rel = rel.split("#")[0]
+                    prob = None
+                    if LL == "?":
+                        prob = "malformed link into a library"
+                    elif LL == other:
+                        prob = f"leads into {other}, the scope uses {L}"
+                    elif not (outs[LL] / rel).exists():
+                        prob = "no such page in the library's documentation"
+                    else:
+                        linked.add(Path(rel).stem.split("~")[0])
+                    if prob and (page, prob) not in seen:
+                        seen.add((page, prob))
+                        bad += 1
+                        st.violation("external-entity-of-wrong-module" if "leads into" in prob else "external-link-does-not-resolve-in-A", stratum,
+                                     dict(feats, entity=Path(rel).stem, page=page, problem=prob.split(" ")[0]), inp, dict(page=page, href=url, problem=prob), f"a page of {L} documenting the entity")
+            want = {"config_t", "lib" + k}
+            if not want <= linked:
+                bad += 1
+                st.violation("external-entity-not-linked", stratum, dict(feats, entity=sorted(want - linked)[0], page=f"app{k}"), inp, sorted(linked), sorted(want))
+        st.states.add(core.digest([form, order, bool(b_url), bad]))
+        st.stratum(stratum, bad)
+    finally:
+        shutil.rmtree(root, ignore_errors=True)
+
+
 def work(chunk):
     st = Stats()
     for case in chunk:
-        run_history(st, case)
+        if case[0] == "two-libs":
+            run_two_libs(st, case)
+        else:
+            run_history(st, case)
     return st
 
 
@@ -493,6 +628,10 @@ def truncation_points():
 
 
 def gen_cases(tier):
+    for form in ("relative", "absolute", "http"):
+        for order in ("12", "21"):
+            for b_url in (None, "https://b.example.org/docs"):
+                yield ("two-libs", form, order, b_url)
     forms = ["relative", "absolute", "http", "http-slash"]
     for a1 in ("default", "private", "nosrc", "alpha"):
         for form in forms:
@@ -537,7 +676,10 @@ def replay(path):
 
     st = Stats()
     c = rec["input"]["case"]
-    run_history(st, (c[0], c[1], c[2], c[3], tuple(c[4]) if c[4] else None, c[5]) + tuple(c[6:]))
+    if c[0] == "two-libs":
+        run_two_libs(st, tuple(c))
+    else:
+        run_history(st, (c[0], c[1], c[2], c[3], tuple(c[4]) if c[4] else None, c[5]) + tuple(c[6:]))
     for v in st.violations:
         print("REPRODUCED", v["clause"], v["observed"])
     return 1 if st.violations else 0
@@ -560,7 +702,7 @@ def main(tier, replay_path=None):
         rule=("histories build A(opts1) [rebuild A(opts2)] [damage modules.json] [build B] [rebuild A] build B (also: the external listed under two names; FORD started from the parent / an unrelated directory): 4 option sets of A x 4 forms of the external (relative path, absolute path, http URL "
               "without / with trailing slash) x [[...]] reference styles; 5 rebuild pairs; module-level name clash x forms; modules.json absent / empty / not JSON / 6 wrong shapes / "
               + ("truncated after EVERY structural character" if tier == "thorough" else "truncated at ~60 structural boundaries") +
-              ". transitions = builds of B; states = distinct sets of externally linked entities"),
+              "; two libraries using the same entity names x 3 forms x listing order x B with / without a project_url of its own. transitions = builds of B; states = distinct sets of externally linked entities"),
         assumptions=[
             "remote access is stubbed: urlopen serves A's output directory under http://a.example/docs/alib/",
             "an external link 'documents the entity' when the target file (and anchor) exists in A's output and the file stem is the entity's name",
